@@ -133,10 +133,10 @@ def mode_case(draw):
     return {
         "mode": mode, "value": value,
         "input": draw(st.sampled_from(["-e", "file", "stdin"])),
-        "carrier": draw(st.sampled_from(["literal", "literal", "tla-code", "ext-code", "ext-code-file", "tla-code-file", "hidden"])),
+        "carrier": draw(st.sampled_from(["literal", "literal", "tla-code", "ext-code", "ext-code-file", "tla-code-file", "hidden", "traced"])),
         "ntn": draw(st.booleans()),
         "out": draw(st.sampled_from(["stdout", "stdout", "-o new", "-o existing"])),
-        "extra": draw(st.lists(st.sampled_from(["-s 100", "-t 5", "-J ."]), max_size=2, unique=True)),
+        "extra": draw(st.lists(st.sampled_from(["-s 100", "-t 5", "-J .", "-t 0", "-t 1", "-s 1000000"]), max_size=2, unique_by=lambda x: x.split(" ")[0])),
     }
 
 
@@ -164,6 +164,9 @@ def build_invocation(case, d):
         with open(os.path.join(d, "ext.jsonnet"), "w", encoding="utf-8") as f:
             f.write(lit)
         args += ["--ext-code-file", "v=ext.jsonnet"]
+    elif carrier == "traced":
+        # the value passes through std.trace inside a call: the trace report (with its stack) goes to stderr, the contract is unchanged
+        src = "local f(x) = std.trace('passing through', x); local g(y) = [f(y)][0]; g(" + lit + ")"
     else:
         src = lit
     stdin = None
